@@ -16,6 +16,8 @@ answer: `ok wf=<0|1> multiple=<0|1> n=<objects> sg=<k>/<k>… X=<id>:<src|->:<o|
 
 `inplacespec N=<reads>|<writes>;… outs=<v>/… pers=<v>/… S=<op>:<ifm>:<ofm>:<copy>,…`
 answer: `unsafe=<n> <op>:<ifm>:<ofm> … | clobbers=<n> <op>:<written>:<destroyed> …`
+
+`memonly <consumers of the IFM> <IFM produced on the CPU 0|1>`      answer: `memcpy` | `bypass`
 -/
 namespace VelaVerif.Handlers.InPlace
 open VelaVerif VelaVerif.Handlers VelaVerif.InPlace
@@ -145,6 +147,10 @@ def handle : List String → Option String
     let c := InPlaceSpec.clobbers p shares
     some (s!"unsafe={u.length} " ++ " ".intercalate ((u.take 6).map fun s => s!"{s.op}:{s.ifm}:{s.ofm}") ++
           s!" | clobbers={c.length} " ++ " ".intercalate ((c.take 6).map fun (i, w, t) => s!"{i}:{w}:{t}"))
+  | ["memonly", n, c] => do
+    match memOnlyFate (← parseNat? n) (← parseBool c) with
+    | .memcpy => some "memcpy"
+    | .bypass => some "bypass"
   | _ => none
 
 end VelaVerif.Handlers.InPlace
